@@ -106,6 +106,14 @@ static string csvOf(const Config& c) {
   for (const Part& p : c.parts) guard += "[" + p.condName + "]";
   s += guard + "r,c,g,,,08,b509,0d0100,x,,UCH\n";
   if (c.alt) s += "[" + c.altPart.condName + "]r,c,g,,,08,b509,0d0100,x,,UCH\n";
+  if (c.family == "and" && c.parts.size() == 2 && !c.alt && c.parts[0].msg >= 0 && c.parts[0].kind != CK_SEEN && !c.parts[0].derived) {
+    // a LATER message of the same file whose condition list extends the judged one by a third condition that is never
+    // satisfied (a value outside the alphabet of the histories): the judged message keeps its two conditions
+    const Part& p = c.parts[0];
+    const MsgDef& rm = c.msgs[static_cast<size_t>(p.msg)];
+    s += "*[kz],c," + rm.name + ",," + p.fieldRef + "," + (rm.noDst ? "08" : "") + "," + (p.kind == CK_STR ? "'zz'" : "250") + "\n";
+    s += guard + "[kz]r,c,gz,,,08,b509,0d0102,x,,UCH\n";
+  }
   return s;
 }
 
